@@ -48,7 +48,98 @@ def main(tier, seed):
     for kind, which in table:
         for K in Ks:
             rep.run(f"train_{which}[K={K}]", prog_factory(kind, which, K, 0), fn=f"rl_blox.algorithm.{which}", site_of=lambda label, which=which: f"train_{which}:{label}")
+    _ppo_collector(rep.r, tier, seed)
     return rep.finish()
+
+
+def _ppo_collector(rep, tier, seed):
+    """PPO's rollout collector (E1: the real collect_trajectories traced over a stub vector env whose returns are
+    symbolic arrays).  The stub actor's action depends on the observation it is given (a_t = acts[t] + w*obs[:, 0]) and
+    the stub env's reward depends on the action it receives (r_t = rewards[t] + c*action), so that 'the policy is
+    conditioned on the current observation' and 'the stored action is the one passed to the environment' become
+    equalities over the returned arrays."""
+    import jax
+    import jax.numpy as jnp
+    import numpy as np
+    from flax import nnx
+    from rl_blox.algorithm import ppo
+    from rl_blox.blox.function_approximator.mlp import MLP
+    from props.common import E1, tier_params
+    from symcore import sarray as S
+    from symcore import values as V
+    from symcore.solver import Session
+    sess = Session(tier_params(tier)["timeout"])
+    D = 2
+    for (T, N) in ([(3, 2)] if tier == "quick" else [(3, 2), (4, 2), (3, 3)]):
+        critic = MLP(D, 1, [2], "relu", nnx.Rngs(seed))
+        gdef, st = nnx.split(critic)
+
+        class _Np:
+            def __getattr__(self, k):
+                return getattr(np, k)
+
+            @staticmethod
+            def asarray(x, *a, **k):
+                return x
+
+        def fn(state, obs_seq, rewards, terms, acts, w, c, key, gdef=gdef, T=T, N=N):
+            crit = nnx.merge(gdef, state)
+
+            class Envs:
+                t = 0
+
+                def reset(self):
+                    return obs_seq[0], {}
+
+                def step(self, action):
+                    t = self.t
+                    self.t += 1
+                    return obs_seq[t + 1], rewards[t] + c * action[:, 0], terms[t], jnp.zeros(N, dtype=bool), {}
+
+            class Actor:
+                t = 0
+
+                def sample(self, obs, key):
+                    t = self.t
+                    self.t += 1
+                    return acts[t] + w * obs[:, :1]
+            old = ppo.np
+            ppo.np = _Np()
+            try:
+                traj = ppo.collect_trajectories(Envs(), Actor(), crit, key, batch_size=T, logger=None)
+            finally:
+                ppo.np = old
+            nv_ref = jnp.stack([crit(obs_seq[t + 1]).reshape(N) for t in range(T)])  # value of the successor observation
+            return (traj.observation, traj.action, traj.reward, traj.terminated, traj.next_value, traj.last_observation), nv_ref
+        rng = np.random.default_rng(seed)
+        ex = (st, jnp.array(rng.normal(size=(T + 1, N, D)), dtype=jnp.float32), jnp.array(rng.normal(size=(T, N)), dtype=jnp.float32), jnp.zeros((T, N)),
+              jnp.array(rng.normal(size=(T, N, 1)), dtype=jnp.float32), 0.5, 0.25, jax.random.key(0))
+        e = E1(rep, sess, fn, ex, f"ppo.collect_trajectories[T={T},N={N}]", validate_sets=[ex])
+        site = "ppo.collect_trajectories"
+        (o_obs, o_act, o_rew, o_term, o_nv, o_last), nv_ref = e.outs
+        if tuple(np.shape(o_rew)) != (T, N) and int(np.asarray(o_rew).size) != T * N:
+            rep.violation(f"{site}:one-row-per-step-and-environment", f"{np.shape(o_rew)} rewards for T={T}, N={N}", {"T": T, "N": N})
+            continue
+
+        def rows(i, o):
+            (obs_, act_, rew_, term_, nv_, last_), nvr = o
+            obs_seq, rewards, terms, acts, w, c = (S.SA(x) for x in i[1:7])
+            lead = tuple(np.shape(rew_))
+            g = []
+            for t in range(T):
+                for n in range(N):
+                    ix = (t, n) if len(lead) == 2 else (n * T + t,)
+                    a_tn = acts[t, n, 0] + w * obs_seq[t, n, 0]
+                    g.append(S.close(S.SA(obs_)[ix], obs_seq[t, n]))            # observation the env last returned
+                    g.append(S.close(S.SA(act_)[ix].reshape(-1)[0], a_tn))      # policy saw that observation
+                    g.append(S.close(S.SA(rew_)[ix], rewards[t, n] + c * a_tn))  # env received the stored action
+                    g.append(S.close(S.SA(term_)[ix], terms[t, n]))
+                    g.append(S.close(S.SA(nv_)[ix], S.SA(nvr)[t, n]))           # bootstrap value of that step's successor
+            g.append(S.close(S.SA(last_), obs_seq[T]))
+            return g
+        e.obligation("every-row=(current obs, action passed to env, that step's reward/flag, V(successor)); last_observation=final obs", rows,
+                     site=f"{site}:rollout-rows-equal-what-the-environment-produced")
+    rep.add_queries(sess)
 
 
 def replay(path):
